@@ -69,6 +69,18 @@ def build(rng, tier):
                 inst = f"{pid}_{j}_{t}"
                 ops = [f"eng perturb {1 + r2.below(10 ** 9)}", f"eng new {inst} {pid} par {t}"] + engcheck.load_ops(inst, inp) + [f"eng runpp {inst} {t}", f"eng dump {inst}", f"eng iters {inst}", "eng perturb 0"]
                 cases.append(engcheck.Case(pid, inst, ops, {"inp": inp, "kind": "doubling-walks" + ("+irp" if irp else ""), "threads": t}))
+    # forced shape "hot keys": a few lattice keys, each improved by hundreds of DIFFERENT incomparable contributions in ONE iteration (set union): every worker's join must be
+    # an atomic read-modify-write of the row (a join computed on a private copy and written back loses the neighbours' contributions)
+    hot = {"rels": [{"arity": 2}, {"arity": 2, "lat": "set"}],
+           "rules": [{"heads": [(1, [("var", 0), ("single", ("var", 1))])], "body": [("cl", 0, [("v", 0), ("v", 1)], [])]}]}
+    progs["hot"] = hot
+    mods.append(("hot", eng.rs_module("hot", hot, macro="ascent_par")))
+    for j, t in enumerate([2, 4, 8, 16, 8, 16] if tier == "quick" else [2, 3, 4, 8, 16] * 4):
+        r2 = rng.fork(f"hot{j}")
+        inp = {0: r2.shuffle([(k, v) for k in range(3) for v in range(300)])}
+        inst = f"hot_{j}"
+        ops = [f"eng new {inst} hot par {t}"] + engcheck.load_ops(inst, inp) + [f"eng run {inst}", f"eng dump {inst}"]
+        cases.append(engcheck.Case("hot", inst, ops, {"inp": inp, "kind": "lattice-hot-keys", "threads": t}))
     # witness of finding F5 (fixed by 058163a; must pass): an aggregate over a lattice in parallel mode (re-queued rows were indexed twice)
     w = {"rels": [{"arity": 3}, {"arity": 1}, {"arity": 3, "lat": "min"}, {"arity": 2}],
          "rules": [{"heads": [(2, [("var", 0), ("var", 1), ("var", 2)])], "body": [("cl", 0, [("v", 0), ("v", 1), ("v", 2)], [])]},
